@@ -204,6 +204,13 @@ def join_byte_intervals(
                     if aux_data and bi in aux_data:
                         table[bi] = aux_data[bi]
             if len(table) > 0:
+                # The destination needs to map to its aux data as well, or
+                # the entries moved to it would only be stored in this
+                # temporary dictionary.
+                destination = intervals[0]
+                if destination not in table and destination.module is not None:
+                    aux_data = table_def.get_or_insert(destination.module)
+                    table[destination] = aux_data.setdefault(destination, {})
                 tables.append(table)  # type: ignore # per above this is hacky
 
     destination = intervals[0]
